@@ -10,6 +10,7 @@ package chain
 // the root is the one the request named (or the latest).
 import (
 	"bufio"
+	"encoding/hex"
 	"encoding/json"
 	"fmt"
 	"math/big"
@@ -50,6 +51,8 @@ type vcCase struct {
 	Rounds   []vcRound `json:"rounds"`
 	QNames   []string  `json:"qnames"` // names to query (registered or not), incl. special accounts
 	QVars    []string  `json:"qvars"`
+	// malformed storage keys (hex, shorter or longer than 32 bytes) sent in GetStateQuery.StorageKeys
+	QBadKeys []string `json:"qbadkeys"`
 }
 
 // one verifier query, in the format of the trie engine's vtQuery (hash = "sha")
@@ -297,6 +300,32 @@ func vcRunCase(t *testing.T, c *vcCase) (obs []vcProof, errs string) {
 					sroot := cp.GetState().GetStorageRoot()
 					for vi, vp := range rsp.Result.GetVarProofs() {
 						obs = append(obs, vcVarObs("var:"+tg.label+":"+c.QVars[vi], tg.account, c.QVars[vi], rj, comp, sroot, vp))
+					}
+					if tg.label != "contract-address" || rj != last {
+						continue
+					}
+					// malformed storage keys, one query each (a panic inside Receive is what the actor's
+					// mailbox would recover)
+					for _, hk := range c.QBadKeys {
+						bk, _ := hex.DecodeString(hk)
+						bo := vcProof{Label: "badvar:" + hk, Account: fmt.Sprintf("%x", tg.account), Round: rj, UseRoot: useRoot, Comp: comp}
+						func() {
+							defer func() {
+								if r := recover(); r != nil {
+									bo.Err = fmt.Sprint("panic: ", r)
+								}
+							}()
+							bctx := &vcCtx{msg: &message.GetStateQuery{ContractAddress: tg.account, StorageKeys: [][]byte{bk}, Root: rootArg, Compressed: comp}}
+							cw.Receive(bctx)
+							brsp, ok := bctx.rsp.(message.GetStateQueryRsp)
+							if !ok || brsp.Err != nil || brsp.Result == nil || len(brsp.Result.GetVarProofs()) != 1 {
+								bo.Err = fmt.Sprint("GetStateQuery: ", brsp.Err)
+								return
+							}
+							bo = vcVarObs("badvar:"+hk, tg.account, hk, rj, comp, brsp.Result.GetContractProof().GetState().GetStorageRoot(), brsp.Result.GetVarProofs()[0])
+							bo.UseRoot = useRoot
+						}()
+						obs = append(obs, bo)
 					}
 				}
 			}
